@@ -278,9 +278,24 @@ def check_cusparse_exec(res, model, scripts):
             continue
         lo, hi, flag = float(out[1]), float(out[2]), int(out[3])
         res.count("method=cusparse (executed, batch)")
-        if flag != 0 or abs(lo - 105.0) > 1e-9 or abs(hi - 105.0) > 1e-9:
-            res.violation("oracle", f"cusparse (executed): a batch of {nsys} systems, no integrator failure: Solve returns {flag} and the final states range over "
-                                    f"[{lo!r}, {hi!r}], every one should have advanced from 5.0 by 100.0", case)
+        if flag != 0 or abs(lo) > 1e-9 or abs(hi) > 1e-9:
+            res.violation("oracle", f"cusparse (executed): a batch of {nsys} systems with distinct states, no integrator failure: Solve returns {flag} and (final - start - dt) "
+                                    f"ranges over [{lo!r}, {hi!r}]: not every system advanced from its own state by 100.0", case)
+    # Reset to another batch size, then Solve again
+    for n1, n2 in ((3, 7), (7, 3), (1, 5), (64, 2)):
+        case = {"kind": "c19", "method": "cusparse", "script": "", "dt": 100.0, "y0": 5.0, "nsystem": n1, "reset_to": n2}
+        out = run_bin(exe, d, "", repr(100.0), repr(5.0), n1, n2)
+        try:
+            i = out.index("after-reset")
+            lo, hi, flag2 = float(out[i + 1]), float(out[i + 2]), int(out[out.index("after-reset-flag") + 1])
+        except (ValueError, IndexError):
+            res.corr_disagreements += 1
+            res.violation("correspondence", f"cusparse: Reset run {n1} -> {n2} produced {out}", case)
+            continue
+        res.count("method=cusparse (executed, reset)")
+        if flag2 != 0 or abs(lo) > 1e-9 or abs(hi) > 1e-9:
+            res.violation("oracle", f"cusparse (executed): Init({n1}), Solve, Reset({n2}), Solve without integrator failure: the second Solve returns {flag2} and "
+                                    f"(final - start - dt) ranges over [{lo!r}, {hi!r}]", case)
     ol.cleanup_scratch()
 
 
